@@ -8,7 +8,8 @@ import GuppyVerif.Util.Sexp
           | `(g (sel ...))`             dfg[sub-place]
     The root place is variable `0` (a `%ret` variable when ret=1).  Reply: one item per op,
     `(s <ops>)`, `(g ok node port <ops>)`, `(g err noPort|keyError <place id>)` (script stops),
-    then `(loc <w|-> ...)` over `places [0] ty`; ops are `(M n (a b)...)` / `(U n (a b) k)`. -/
+    then `(loc <w|-> ...)` over `places [0] ty`; ops are `(M n (a b)...)` / `(U n (a b) k)`; finally
+    `(rs <#reads> <next node> <#ops> <read wires>)` | `(rs err)`: the same script through `runScript`. -/
 open GuppyVerif GuppyVerif.Wiring
 
 partial def tyOf : Sexp → Option Ty
@@ -17,14 +18,25 @@ partial def tyOf : Sexp → Option Ty
   | .list (.atom "T" :: cs) => (cs.mapM tyOf).map (Ty.node .tuple)
   | _ => none
 
-def tyAt : Ty → List Nat → Option Ty
-  | t, [] => some t
-  | .leaf _ _, _ :: _ => none
-  | .node _ cs, i :: s => match cs[i]? with
-    | some t => tyAt t s
-    | none => none
-
 def showWire (w : Wire) : String := s!"({w.node} {w.port})"
+
+def tyAt (t : Ty) (s : List Nat) : Option Ty := t.at s
+
+/-- the same script through `runScript` (the function `store_script_correct` is about) -/
+def sopOf : Sexp → Option SOp
+  | .list [.atom "s", path, .atom a, .atom b] => do
+    some (.set (← path.natList?) ⟨← a.toNat?, ← b.toNat?⟩)
+  | .list [.atom "g", path] => do some (.get (← path.natList?))
+  | _ => none
+
+def showRunScript (t : Ty) (n : Nat) (ops : List Sexp) : String :=
+  match ops.mapM sopOf with
+  | none => "(rs bad)"
+  | some script =>
+    match runScript t [0] script Locals.empty n with
+    | .ok (ws, _, n2, os) => s!"(rs {ws.length} {n2} {os.length}{String.join (ws.map fun w => " " ++ showWire w)})"
+    | .error _ => "(rs err)"
+
 def showOp : Op → String
   | .make n ins => s!"(M {n}{String.join (ins.map fun w => " " ++ showWire w)})"
   | .unpack n inp k => s!"(U {n} {showWire inp} {k})"
@@ -52,13 +64,14 @@ def handle (line : String) : String :=
   | some (.list [.atom n0, ty, .atom ret, .list ops]) =>
     match n0.toNat?, tyOf ty with
     | some n, some t =>
+      let rs := if ret == "1" then "(rs -)" else showRunScript t n ops
       match runOps t (ret == "1") ops Locals.empty n [] with
       | some (items, some L) =>
         let loc := (places [0] t).map fun q => match L q with
           | some w => showWire w
           | none => "-"
-        " ".intercalate (items ++ ["(loc " ++ " ".intercalate loc ++ ")"])
-      | some (items, none) => " ".intercalate items
+        " ".intercalate (items ++ ["(loc " ++ " ".intercalate loc ++ ")", rs])
+      | some (items, none) => " ".intercalate (items ++ [rs])
       | none => "bad-op"
     | _, _ => "bad-op"
   | _ => "bad-op"
